@@ -16,7 +16,7 @@ import time
 from . import common, export, gen_graphs, stages
 
 VCHK = os.path.join(common.BUILD, "extract", "vchk")
-NCOLS = 8
+NCOLS = 9
 NPROC = min(16, os.cpu_count() or 4)
 
 
